@@ -193,6 +193,8 @@ fn rewrite_macro_inner(
     position: MacroPosition,
     is_nested_macro: bool,
 ) -> RewriteResult {
+    #[cfg(rust_lang_rustfmt_verif)]
+    crate::verif_hooks::fault::at_macro(context.snippet(mac.span()));
     if context.config.use_try_shorthand() {
         if let Some(expr) = convert_try_mac(mac, context) {
             context.leave_macro();
